@@ -26,9 +26,11 @@ RULE = (
     'Non-trivial = at least two live hands when pushing starts; distinct by '
     '(game, players, automations, mode, boards, operation-kind sequence).')
 ASSUMPTIONS = [
-    'hand strength comes from hand_type.from_game_or_none on the tabled '
-    'cards (decided separately by C04/C05)',
-    'boards come from get_board_cards (decided by C14)',
+    'hand strength comes from the independent evaluator of C04/C05 '
+    '(vflib.ref.handrank) on the TABLED cards; the engine\'s own ranking of '
+    'the same cards is cross-checked and a disagreement is a violation',
+    'the number of boards is taken from the log (starting boards x agreed '
+    'run-outs), the board cards themselves from get_board_cards',
     'a pot layer no live player reached is contested by the pot below '
     '(the behaviour introduced by the ownerless-pot repair, see DESIGN §3)',
     'default divmod only (a custom divmod redefines "equal share")',
